@@ -1877,6 +1877,14 @@ class Interp:
             st.assume(_inv(ann, view, n))
             self.block(s.orelse, fr)
 
+    def _variant(self, ann, view, s, fr):
+        v = getattr(ann, 'variant', None)
+        if v is None:
+            return None
+        if v == 'auto':
+            return _auto_variant(self, s, fr)
+        return _ann_call(v, view)
+
     def cut_while(self, s, fr, ann):
         st = self.st
         view = LoopView(self, fr)
@@ -1892,7 +1900,7 @@ class Interp:
         if which == 0:
             if not self.decide(self.ev(s.test, fr)):
                 raise PathAbort()
-            v0 = ann.variant(view) if getattr(ann, 'variant', None) else None
+            v0 = self._variant(ann, view, s, fr)
             try:
                 self.block(s.body, fr)
             except _Break:
@@ -1906,7 +1914,7 @@ class Interp:
                 pass
             st.prove('inv:%s#preserve' % ann.name, _inv(ann, view, None), kind='helper')
             if v0 is not None:
-                v1 = ann.variant(view)
+                v1 = self._variant(ann, view, s, fr)
                 st.prove('var:%s' % ann.name, mk(z3.And(zint(v0) >= 0, zint(v1) < zint(v0))), kind='helper')
             raise LoopCutEnd()
         else:
@@ -1917,6 +1925,16 @@ class Interp:
             if self.decide(self.ev(s.test, fr)):
                 raise PathAbort()
             self.block(s.orelse, fr)
+
+
+def _auto_variant(interp, s, fr):
+    """variant read off the loop test `a < b` / `a <= b` (names of locals do not matter): b - a"""
+    t = s.test
+    if isinstance(t, ast.Compare) and len(t.ops) == 1 and isinstance(t.ops[0], (ast.Lt, ast.LtE)):
+        return interp.ev(ast.BinOp(left=t.comparators[0], op=ast.Sub(), right=t.left), fr)
+    if isinstance(t, ast.Compare) and len(t.ops) == 1 and isinstance(t.ops[0], (ast.Gt, ast.GtE)):
+        return interp.ev(ast.BinOp(left=t.left, op=ast.Sub(), right=t.comparators[0]), fr)
+    raise Unsupported('no variant can be read off the loop test %s' % ast.unparse(t))
 
 
 def _ann_call(fn, *args):
